@@ -372,6 +372,38 @@ func main() {
 			h.Sample(line + " => " + out)
 		}
 	}
+	// frames are values: encoding further messages must not change a frame the caller still holds
+	// (a sender queues several encoded frames before any of them is written or decoded)
+	for round := 0; round < 1+h.N/8; round++ {
+		k := 2 + h.Rng.Intn(7)
+		msgs := make([]protocol.Message, k)
+		frames := make([][]byte, k)
+		copies := make([][]byte, k)
+		for i := range msgs {
+			msgs[i] = g.message(1 + h.Rng.Intn(6))
+			data, err := protocol.EncodeMessage(msgs[i])
+			if err != nil {
+				continue
+			}
+			frames[i] = data
+			copies[i] = append([]byte(nil), data...)
+		}
+		for i, m := range msgs {
+			if frames[i] == nil {
+				continue
+			}
+			h.Res.OracleEvals++
+			line, _ := encLine(m)
+			if string(frames[i]) != string(copies[i]) {
+				h.FailWith("frame-altered-by-later-encode", fmt.Sprintf("the frame EncodeMessage returned for message %d of %d changed while later messages were encoded", i, k), []string{line, "# frame as returned: " + hex.EncodeToString(copies[i]), "# frame now: " + hex.EncodeToString(frames[i])})
+				continue
+			}
+			_, back := decode(frames[i])
+			if back == nil || back.MsgType() != m.MsgType() || !sameMsg(m, back) {
+				h.FailWith("roundtrip-batch", fmt.Sprintf("message %d of a batch of %d encoded first and decoded afterwards differs: m=%s back=%v", i, k, showMsg(m), back), []string{line})
+			}
+		}
+	}
 	// a negative parent target is not well-formed (the sign does not travel); model correspondence only
 	{
 		m := &protocol.RequestQualities{TaskID: g.uuid(), Challenge: g.hash(), ParentTarget: big.NewInt(-258), ParentSlot: 1, Height: 2}
